@@ -93,6 +93,9 @@ pub struct Sched {
 
 thread_local! {
     static CUR: RefCell<Option<(Arc<Sched>, usize)>> = const { RefCell::new(None) };
+    /// (ordinal of the last scheduling point on this thread, ordinal at which
+    /// a hook point must consult the scheduler again)
+    static PT: std::cell::Cell<(u64, u64)> = const { std::cell::Cell::new((0, 0)) };
 }
 
 pub fn current_tid() -> usize {
@@ -101,9 +104,21 @@ pub fn current_tid() -> usize {
 
 /// A scheduling point. No-op on threads the simulator does not own.
 pub fn point(kind: PointKind, latency: u64) {
+    // hot path: interner and counter hooks fire hundreds of thousands of times
+    // per run; between two consultations of the scheduler they only count
+    let (ord, next) = PT.with(|p| p.get());
+    if kind == PointKind::Hook && next == 0 {
+        return; // not a simulated thread
+    }
+    let ord = ord + 1;
+    if kind == PointKind::Hook && ord < next {
+        PT.with(|p| p.set((ord, next)));
+        return;
+    }
     let cur = CUR.with(|c| c.borrow().clone());
     if let Some((s, tid)) = cur {
-        s.at_point(tid, kind, latency);
+        let next = s.at_point(tid, kind, latency, ord);
+        PT.with(|p| p.set((ord, next)));
     }
 }
 
@@ -195,7 +210,8 @@ impl Sched {
             },
             Policy::Random(p) => match me_alive {
                 Some(m) => {
-                    let p = if kind == PointKind::Hook { p / 64.0 } else { p };
+                    // a hook point only reaches the scheduler when its geometrically drawn gap ran out
+                    let p = if kind == PointKind::Hook { 1.0 } else { p };
                     if alive.len() > 1 && st.rng.chance(p) {
                         let others: Vec<usize> = alive.iter().copied().filter(|&i| i != m).collect();
                         Some(others[st.rng.usize_below(others.len())])
@@ -219,12 +235,41 @@ impl Sched {
         }
     }
 
-    fn at_point(&self, tid: usize, kind: PointKind, latency: u64) {
+    /// Ordinal at which thread `tid` has to consult the scheduler again at a hook point.
+    fn next_consult(st: &mut State, tid: usize) -> u64 {
+        let ord = st.threads[tid].ordinal;
+        let mut next = u64::MAX;
+        if let Some((&(_, o), _)) = st.replay.range((tid, ord + 1)..(tid, u64::MAX)).next() {
+            next = next.min(o);
+        }
+        match st.policy.clone() {
+            Policy::Random(p) => {
+                // geometric gap with success probability p/64
+                let q = (p / 64.0).clamp(1e-9, 1.0);
+                let u = ((st.rng.next_u64() >> 11) as f64 + 1.0) / ((1u64 << 53) as f64 + 1.0);
+                let gap = (u.ln() / (1.0 - q).ln()).floor() as u64 + 1;
+                next = next.min(ord.saturating_add(gap));
+            }
+            Policy::Pct { .. } => {
+                let tp = st.total_points;
+                if let Some(&cp) = st.pct_points.iter().filter(|&&c| c > tp).min() {
+                    next = next.min(ord + (cp - tp));
+                }
+            }
+            _ => {}
+        }
+        next.max(ord + 1)
+    }
+
+    fn at_point(&self, tid: usize, kind: PointKind, latency: u64, ordinal: u64) -> u64 {
         let mut st = self.st.lock().unwrap();
         debug_assert_eq!(st.running, Some(tid));
-        st.total_points += 1;
+        // account for the hook points passed on the fast path since the last consultation
+        let skipped = ordinal - st.threads[tid].ordinal - 1;
+        st.total_points += 1 + skipped;
+        st.points_by_kind[kind_idx(PointKind::Hook)] += skipped;
         st.points_by_kind[kind_idx(kind)] += 1;
-        st.threads[tid].ordinal += 1;
+        st.threads[tid].ordinal = ordinal;
         let now = st.now;
         st.threads[tid].ready_at = now + latency;
         let next = Self::choose(&mut st, Some(tid), kind).unwrap_or(tid);
@@ -233,7 +278,7 @@ impl Sched {
             st.now = ra; // nothing else to do: the clock jumps to the next event
         }
         if next == tid {
-            return;
+            return Self::next_consult(&mut st, tid);
         }
         let ordinal = st.threads[tid].ordinal;
         st.log.push(Switch { from: tid, ordinal, to: next, kind: KIND_NAMES[kind_idx(kind)] });
@@ -242,15 +287,27 @@ impl Sched {
         while st.running != Some(tid) {
             st = self.cvs[tid].wait(st).unwrap();
         }
+        Self::next_consult(&mut st, tid)
     }
 
     /// Called by a simulated thread before its first instruction.
     pub fn enter(self: &Arc<Self>, tid: usize) {
         CUR.with(|c| *c.borrow_mut() = Some((self.clone(), tid)));
         let mut st = self.st.lock().unwrap();
+        let first = Self::next_consult(&mut st, tid);
+        PT.with(|p| p.set((0, first)));
         st.threads[tid].started = true;
+        self.ctl.notify_all();
         while st.running != Some(tid) {
             st = self.cvs[tid].wait(st).unwrap();
+        }
+    }
+
+    /// Controller: block until thread `tid` has parked in `enter`.
+    pub fn wait_started(self: &Arc<Self>, tid: usize) {
+        let mut st = self.st.lock().unwrap();
+        while !st.threads[tid].started {
+            st = self.ctl.wait(st).unwrap();
         }
     }
 
@@ -258,9 +315,12 @@ impl Sched {
     pub fn leave(self: &Arc<Self>, tid: usize) {
         {
             let mut st = self.st.lock().unwrap();
-            st.total_points += 1;
+            let ordinal = PT.with(|p| p.get()).0 + 1;
+            let skipped = ordinal - st.threads[tid].ordinal - 1;
+            st.total_points += 1 + skipped;
+            st.points_by_kind[kind_idx(PointKind::Hook)] += skipped;
             st.points_by_kind[kind_idx(PointKind::ThreadEnd)] += 1;
-            st.threads[tid].ordinal += 1;
+            st.threads[tid].ordinal = ordinal;
             st.threads[tid].done = true;
             match Self::choose(&mut st, Some(tid), PointKind::ThreadEnd) {
                 Some(next) => {
@@ -281,6 +341,7 @@ impl Sched {
             }
         }
         CUR.with(|c| *c.borrow_mut() = None);
+        PT.with(|p| p.set((0, 0)));
     }
 
     /// Controller: hand the token to the first thread and wait until all are done.
